@@ -153,7 +153,8 @@ func queryCases(rig *Rig, sc *Scenario, v *View) []qcase {
 	}
 	// 3 bindings of a service (optionally of one owner)
 	for _, n := range []string{"a", "ab", "b"} {
-		for _, o := range []sdk.AccAddress{nil, O1, O2, XX} {
+		// (also owner arguments of the wrong length whose bytes, joined with the service name, spell another owner's key)
+		for _, o := range []sdk.AccAddress{nil, O1, O2, XX, append(append(sdk.AccAddress{}, O1...), 'a'), O1[:19]} {
 			name, owner := n, o
 			bs := make([]*st.ServiceBinding, 0)
 			var recs []BindingRec
@@ -172,7 +173,7 @@ func queryCases(rig *Rig, sc *Scenario, v *View) []qcase {
 				bs = append(bs, &b)
 				strs = append(strs, b.String())
 			}
-			c := qcase{kind: "bindings", arg: name + "/" + nameOf(owner), path: st.QueryBindings, data: st.QueryBindingsParams{ServiceName: name, Owner: owner}, truth: bs, tstr: strList(strs)}
+			c := qcase{kind: "bindings", arg: name + "/" + nameOf(owner), path: st.QueryBindings, data: st.QueryBindingsParams{ServiceName: name, Owner: owner}, truth: bs, tstr: strList(strs), errOK: owner != nil && len(owner) != 20}
 			c.grpc = func(ctx sdk.Context) (string, error) {
 				r, err := k.Bindings(sdk.WrapSDKContext(ctx), &st.QueryBindingsRequest{ServiceName: name, Owner: owner})
 				if err != nil {
